@@ -2,6 +2,7 @@
 from props import ArmsKaniUnit, JitKaniUnit, KaniUnit
 from ex_units import JitSmtUnit
 from tv_units import AllocTVUnit, FlattenTVUnit, SimplifyTVUnit, BytecodeTVUnit, ConstructTVUnit
+from remap_tv import RemapTVUnit
 
 LIBM_STUBS = [
     "f32::sin, f32::cos -> functional, NaN/inf->NaN, range [-1,1] (no monotonicity)",
@@ -61,6 +62,10 @@ PROPS = {
     "C10": {
         "level": "translation_validation",
         "units": [SimplifyTVUnit(reuse_only=True)],
+    },
+    "C13": {
+        "level": "translation_validation",
+        "units": [RemapTVUnit()],
     },
     "C15": {
         "level": "translation_validation",
